@@ -81,14 +81,14 @@ METHS = methods()
 
 
 def plan(tier):
-    k = 24 if tier == "quick" else 4000
+    k = 60 if tier == "quick" else 4000
     p = {f"fn:{n}": k for n in FUNCS}
-    p.update({f"m:{o}.{n}": (12 if tier == "quick" else 2000) for o, n in METHS})
+    p.update({f"m:{o}.{n}": (30 if tier == "quick" else 2000) for o, n in METHS})
     return p
 
 
 def floors(tier):
-    return {"probed-callables>=140": 1, "unprobed<=6": 1, "calls:returned": 2500, "calls:raised": 200, "alias-probes": 120, "sets-probed": 300}
+    return {"probed-callables>=140": 1, "unprobed<=6": 1, "calls:returned": 6000, "calls:raised": 500, "alias-probes": 300, "sets-probed": 800}
 
 
 # ---------------------------------------------------------------------------------
@@ -97,14 +97,29 @@ def make_net(rng, cls):
     net = ops.new_net(cls)
     for _ in range(rng.randint(2, 9)):
         common.run_op(gen.gen(net), net)
-    if rng.random() < 0.6 and net.num_nodes >= 2 and cls != "DiHypergraph":
-        ns = list(net.nodes)
-        (net.add_simplex if cls == "SimplicialComplex" else net.add_edge)(rng.sample(ns, 2))
+    # make sure there is real structure: a few edges with two or three members over a shared node pool
+    pool = gen.npool[:5]
+    for _ in range(rng.randint(1, 3)):
+        ms = rng.sample(pool, rng.randint(2, 3))
+        if cls == "DiHypergraph":
+            net.add_edge((ms[:1], ms[1:]))
+        elif cls == "SimplicialComplex":
+            net.add_simplex(ms)
+        else:
+            net.add_edge(ms)
     for e in list(net.edges)[:3]:
         net.edges[e]["weight"] = rng.choice((1, 2, 0.5))
     for n in list(net.nodes)[:3]:
         net.nodes[n]["color"] = rng.choice((1, 2, 3))
     net["name"] = "c08"
+    # attribute values of mutable container types (a read-only function must not normalise them in place)
+    es, ns = list(net.edges), list(net.nodes)
+    if es and rng.random() < 0.5:
+        net.edges[rng.choice(es)]["tags"] = rng.choice(({"b", "a"}, frozenset({2, 1}), [3, 1, 2], {"k": [1]}, (1, 2)))
+    if ns and rng.random() < 0.5:
+        net.nodes[rng.choice(ns)]["tags"] = rng.choice(({"b", "a"}, frozenset({2, 1}), [3, 1, 2], {"k": [1]}, (1, 2)))
+    if rng.random() < 0.5:
+        net["meta"] = rng.choice(({"b", "a"}, [3, 1, 2], {"k": [1]}))
     return net
 
 
@@ -147,8 +162,27 @@ OPTIONAL = {
 KIND = {"degree_assortativity": ("uniform", "top-2", "top-bottom"), "two_node_clustering_coefficient": ("union", "min", "max")}
 
 
+def _special_node_swap(net, rng):
+    """Arguments for which node_swap actually swaps: an existing order, two nodes that sit in edges of that order."""
+    mem = net.edges.members(dtype=dict)
+    sizes = sorted({len(m) for m in mem.values() if len(m) >= 1})
+    if not sizes:
+        raise KeyError("node_swap")
+    k = rng.choice(sizes)
+    cand = sorted({n for m in mem.values() if len(m) == k for n in m}, key=repr)
+    n1 = rng.choice(cand)
+    n2 = rng.choice([c for c in cand if c != n1] or cand)
+    kw = {"order": k - 1} if rng.random() < 0.7 else {}
+    if rng.random() < 0.3:
+        kw["id_temp"] = -5
+    return [n1, n2], kw
+
+
 def call_function(name, net, rng, td):
     f = getattr(xgi, name)
+    if name == "node_swap" and not isinstance(net, xgi.DiHypergraph) and rng.random() < 0.8:
+        a, kw = _special_node_swap(net, rng)
+        return (lambda: f(net, *a, **kw)), f"xgi.node_swap(net, {a[0]!r}, {a[1]!r}, {kw})"
     sig = inspect.signature(f)
     ps = list(sig.parameters.values())
     args, kwargs, desc = [net], {}, []
@@ -226,7 +260,7 @@ def call_method(owner, name, net, rng, td):
         "__contains__": lambda: (some_n in net, "zz-absent" in net, [1] in net),
         "__str__": lambda: str(net),
         "__getitem__": lambda: net["name"],
-        "__lshift__": lambda: net << net.copy(),
+        "__lshift__": lambda: net << _other(net, rng),
     }
     if name in table:
         return table[name], f"net.{name}(...)"
@@ -236,6 +270,18 @@ def call_method(owner, name, net, rng, td):
     if req:
         raise KeyError(name)
     return (lambda: f()), f"net.{name}()"
+
+
+def _other(net, rng):
+    """A second operand for `<<`: other edges, overlapping nodes with other attributes, other network attributes."""
+    o = net.copy()
+    ns = list(o.nodes)
+    if ns:
+        o.add_edge(rng.sample(ns, min(len(ns), 2)), color="other")
+        o.nodes[ns[0]]["color"] = "other"
+    o["name"] = "right-operand"
+    o["extra"] = [1, 2]
+    return o
 
 
 def _all_stats(net, owner, rng):
